@@ -68,14 +68,14 @@ def run(ck, prog, tier, load):
     # ---- (c) labelling --------------------------------------------------------------------
     for bb in sel:
         a = resp.op_expr(resp.term(bb)["args"][0])
-        ok1 = any(r_[0] == "arg" and r_[2] == "encoding" for r_ in e_roots(a)) and not e_bins(a)
-        ok2 = all(any(r_[0] == "arg" and r_[2] == "encoding" for r_ in e_roots(resp.op_expr(resp.term(u)["args"][0]))) for u in uh)
+        ok1 = root_is(a, args_of_type(resp, r"ContentEncoding$")) and not e_bins(a)
+        ok2 = all(root_is(resp.op_expr(resp.term(u)["args"][0]), args_of_type(resp, r"ContentEncoding$")) for u in uh)
         ck.ob("C13-c.same-coding-labelled", "Encoder::response", ok1 and ok2 and bool(uh), resp, bb, "the encoder is selected from, and the head is updated with, the same `encoding` argument")
         ok3 = all(any(c[0] == "discr" and e_calls(c, r"ContentEncoder::select$") and lab == "Some" for c, lab, a_ in resp.guards(u)) for u in uh)
         ck.ob("C13-c.label-only-with-encoder", "Encoder::response", ok3 and bool(uh), resp, uh[0] if uh else None, "Content-Encoding is written only when an encoder was actually selected")
     up = prog.one(r"^actix_http::encoding::encoder::update_head$")
     ins = [(bb, t) for bb, t in up.calls(r"HeaderMap::insert$") if e_has_const(up.op_expr(t["args"][1]), r"CONTENT_ENCODING$")]
-    ok = bool(ins) and all(e_calls(up.op_expr(t["args"][2]), r"ContentEncoding::to_header_value$") and any(r_[0] == "arg" and r_[2] == "encoding" for r_ in e_roots(up.op_expr(t["args"][2]))) for bb, t in ins)
+    ok = bool(ins) and all(e_calls(up.op_expr(t["args"][2]), r"ContentEncoding::to_header_value$") and root_is(up.op_expr(t["args"][2]), args_of_type(up, r"ContentEncoding$")) for bb, t in ins)
     ck.ob("C13-c.content-encoding-from-arg", "update_head", ok, up, ins[0][0] if ins else None, "update_head inserts Content-Encoding = encoding.to_header_value()")
     vary = [bb for bb, t in up.calls(r"HeaderMap::append$") if e_has_const(up.op_expr(t["args"][1]), r"VARY$")]
     ck.ob("C13-c.vary", "update_head", bool(vary) and up.must_pass([0], up.returns(), vary)[0], up, vary[0] if vary else None, "Vary: accept-encoding is appended on every path")
